@@ -49,7 +49,7 @@ theorem faithful_same {db db' : DB} (h : SameBlks db db') (l : List Entry) (hf :
   | some e1 =>
     rw [h'] at this
     simp only [Option.map_some, Option.some.injEq] at this
-    exact ⟨e1, rfl, by rw [this]; exact h1⟩
+    exact ⟨e1, rfl, by rw [this]; exact h1.1, by rw [this]; exact h1.2⟩
 
 theorem advanceAcc_lastSent (cfg : Config) (a : Acc) (b : Blk) (fi : Option Entry) :
     (advanceAcc cfg a b fi).st.lastSent = a.st.lastSent := by
@@ -202,7 +202,7 @@ theorem processBlock_step (cfg : Config) (hnew : cfg.matches .new = true) (hundo
           rw [hout.cache, ← hs3] at hcache
           simp only [Option.some.injEq, List.cons.injEq] at hcache
           rw [hsame.1, hs3lib, ← hcache.1]
-          obtain ⟨e0, h0, h1⟩ := hfa c0 (by simp)
+          obtain ⟨e0, h0, h1, _⟩ := hfa c0 (by simp)
           rw [← h1, ← link_of_find _ _ e0 h0]
           exact hp.1
         have hlibok : ∀ e, a.st.db.find (a.st.db.blockInChain eb.blk.ref eb.blk.lib).id = some e →
